@@ -73,6 +73,7 @@ def run(chk, prog):
     from . import C18
 
     tmp = Check("C18", chk.tier, chk.seed, write_evidence=False)
+    tmp.nested = True
     C18.run(tmp, prog)
     viol = {(v["rule"], v["instance"]): v for v in tmp.violations}
     for o in tmp.obligations:
